@@ -351,6 +351,21 @@ func drawSet(t *rapid.T, nmin, nmax int, stress bool) pointSet {
 		}
 		labels = append(labels, "near-tie")
 	}
+	// two (or three) of the points exactly on a coordinate axis: y = 0 or x = 0 (drawings are dimensioned
+	// from a base line; a tolerance relative to |y| is zero there)
+	if len(pts) >= 3 && rapid.IntRange(0, 7).Draw(t, "on-axis") == 0 {
+		k := rapid.IntRange(2, 3).Draw(t, "on-axis.count")
+		onX := rapid.Bool().Draw(t, "on-axis.y=0")
+		for c := 0; c < k; c++ {
+			i := rapid.IntRange(0, len(pts)-1).Draw(t, fmt.Sprintf("on-axis.%d", c))
+			if onX {
+				pts[i].Y = 0
+			} else {
+				pts[i].X = 0
+			}
+		}
+		labels = append(labels, "points-on-an-axis")
+	}
 	return pointSet{pts, class, labels}
 }
 
